@@ -296,6 +296,9 @@ SPECIAL = {
     'G2Prepared.miller_loop': MILLER_PROOF,
     'G1.add': ADD_PROOF.format(ns='G1', one='(1 : Fq)'),
     'G2.add': ADD_PROOF.format(ns='G2', one='Sm9.Fq2.one'),
+    'Fq2.inverse': 'inverse_equiv Sm9.Gen.Fq2.inverse Sm9.Fq2.inverse',
+    'Fq4.inverse': 'inverse_equiv Sm9.Gen.Fq4.inverse Sm9.Fq4.inverse',
+    'Fq12.inverse': 'inverse_equiv Sm9.Gen.Fq12.inverse Sm9.Fq12.inverse',
     'AffineG1.new': 'dtree_equiv Sm9.Gen.AffineG1.new Sm9.AffineG.new',
     'AffineG2.new': 'dtree_equiv Sm9.Gen.AffineG2.new Sm9.AffineG.new',
     'G1.to_affine': 'to_affine_equiv Sm9.Gen.G1.to_affine',
